@@ -13,7 +13,8 @@ CLAIMED = {
         'constructive solution satisfies the declarative circuit equations exactly over Gaussian rationals, and every reached scenario is replayed through the real '
         'solver (get_potential/voltage/current/power, open_circuit_voltage) under adversarial naming schemes, value types and decade units and compared with the '
         'specification\'s exact solution.  Larger networks (up to 8 nodes / 14 branches) are covered code->spec: planted exact solutions are judged by TLC '
-        '(IsSolution + topological well-posedness) and compared with the code.',
+        '(IsSolution + topological well-posedness) and compared with the code; the example networks shipped with the repository and every steady-state solve of the '
+        'repository\'s own tests (recorded from outside by a pytest plugin) are judged the same way.',
    ref='DESIGN.md §6 C01', technique='TLA+ spec + TLC bounded model checking; spec->code scenario replay; code->spec trace validation'),
  'C04': dict(
    text='TLC checks on every well-posed network with sources in the bound that scaling the sources scales the solution, that deactivating sources with the '
@@ -44,7 +45,8 @@ CLAIMED = {
  'C05': dict(
    text='Tellegen\'s theorem and the sign rules (resistor P = |I|^2 R >= 0, inductor Q >= 0, capacitor Q <= 0) are invariants TLC checks on every network / circuit of '
         'the bounded models at every frequency; every get_power of the library (network solution, DC, peak, RMS, time domain) is compared with the specification\'s '
-        'V*conj(I), half of it, V*I and v(t)*i(t).',
+        'V*conj(I), half of it, V*I and v(t)*i(t); for transient results (dynamic circuits of MC_C12) every element is asked for power / voltage / current in three orders, '
+        'the power twice, arrays handed out earlier must not change, and the instantaneous powers must sum to zero at every sample.',
    ref='DESIGN.md §6 C05', technique='TLA+ spec + TLC bounded model checking; spec->code scenario replay'),
  'C07': dict(
    text='ElementAt / NetAt of the TLA+ module Circuit define the one branch each component contributes at w; TLC enumerates every component constructor x parameter '
@@ -76,7 +78,8 @@ CLAIMED = {
         'that a document round trip is the identity; TLC checks that every notation of a number gives the same element and enumerates every kind x notation x optional field x '
         'position, the circuit-loader kinds with parameter values, and all nested documents of depth <= 3 (dictionaries, lists, int/float/string/complex leaves).  Replay: '
         'load_network (twice on the same object, and from a JSON file), to_complex (radians/degrees, twice), generate_component / undictify_circuit, serialize/deserialize/dump/load '
-        'in JSON and YAML; results compared with the specification and every argument snapshot compared before/after.',
+        'in JSON and YAML, and in-memory documents written in Cartesian / polar-radian / polar-degree notation loaded twice; results compared with the specification and every '
+        'argument snapshot compared before/after.',
    ref='DESIGN.md §6 C17', technique='TLA+ spec + TLC exhaustive enumeration; spec->code scenario replay with argument snapshots'),
  'C19': dict(
    text='Acceptance is decided by validity predicates of the TLA+ specification (ValidNet, ValidCircuit, ValidComp, ValidLoad, ValidNetDoc, ValidCircDoc, known waveform / '
@@ -89,26 +92,30 @@ CLAIMED = {
    text='Code->spec trace validation: the real ScientificFloat / ScientificComplex / Display.print_* are run on a complete grid (every 1..3-digit decimal mantissa x every '
         'power of ten 10^-15..10^15 x signs x precisions 1..6 x every prefix table in use; binary64 neighbours, rounding carries, out-of-range values, four complex quadrants '
         'in Cartesian / polar rad / polar deg); each rendered text is tokenised and judged by TLC with the TLA+ operator Display!RenderVerdict (sign, exponent multiple of 3, '
-        'mantissa in [1,1000], within half a unit of the p-th significant digit with exact ties accepted, infinity only from 10^M upwards); text that does not tokenise is a violation.',
+        'mantissa in [1,1000], within half a unit of the p-th significant digit with exact ties accepted, infinity only from 10^M upwards); text that does not tokenise is a violation.  '
+        'Random doubles with 7-digit brackets are added, and every third rendering re-uses one ScientificFloat object whose fields are reassigned (a read-out that is updated).',
    ref='DESIGN.md §6 C18', technique='TLA+ acceptance predicate evaluated by TLC on recorded outputs (trace validation, code->spec)'),
  'C10': dict(
    text='The TLA+ module StateSpace derives (A, B) and every output row by SUBSTITUTION (capacitor -> voltage source, inductor -> current source, solve the resistive network '
         'with the MNA operators, read i_C/C and v_L/L) - independent of the library\'s inverse-matrix construction - and TLC checks on every non-degenerate circuit of the '
         'bounded generator (degeneracy decided exactly) that C(jwI-A)^-1 B + D equals the exact phasor response of every output (node potential, element voltage, element '
         'current) to every source at every frequency of the sweep incl. w = 0 (DC gain), and that dim = #C + #L.  Replay: nodal_state_space_model (A, B, c_row_*/d_row_*, '
-        'published sources) and Circuit.state_space_model.state_space_model are compared THROUGH THE TRANSFER FUNCTION (state basis free) under 30 adversarial naming schemes.',
+        'published sources) and Circuit.state_space_model.state_space_model are compared THROUGH THE TRANSFER FUNCTION (state basis free) under 42 adversarial naming schemes, '
+        'decade units of impedance / voltage / frequency (down to nF and pF), and re-analysis of the same names with other C / L values.',
    ref='DESIGN.md §6 C10', technique='TLA+ spec + TLC bounded model checking of TF = phasor response; spec->code replay'),
  'C11': dict(
    text='TLC checks on the specification\'s state matrix of every non-degenerate circuit in the bound that W A + A^T W is negative semidefinite (signs of all principal minors, '
         'exact) and that Gaussian-rational poles have non-positive real part.  The library\'s A is compared entrywise with that matrix in the published state order (so swapped '
         'value assignments show), its eigenvalues and W A + A^T W are checked numerically, and the stored energy of one simulated free response per scenario is recorded and '
-        'judged by TLC (Trace_C11: E[k+1] <= E[k] + eps after the inputs have returned to zero).',
+        'judged by TLC (Trace_C11: E[k+1] <= E[k] + eps after the inputs have returned to zero).  Each scenario is also built in decade units (entries of A over 12 decades; '
+        'entrywise natural scale, definiteness tested after congruence scaling).',
    ref='DESIGN.md §6 C11', technique='TLA+ spec + TLC (exact definiteness test); spec->code replay; code->spec trace validation of energy sequences'),
  'C12': dict(
    text='For circuits with distinct Gaussian-rational poles (all first-order ones, second-order ones with rational-square discriminant incl. designed complex-pole families) '
         'the TLA+ module Transient carries the exact first-order-hold response to step / triangle / ramp inputs symbolically - polynomials in p_i = exp(lambda_i h) and 1/h built '
         'from spectral projectors that TLC checks to reproduce A - and the harness evaluates them for two grids; every potential, voltage and current sample of TransientSolution '
-        'is compared (1e-8), plus rest start, power = v*i, Kirchhoff\'s current law at every sample and settling to the exact DC gains on a long run; circuits outside the '
+        'is compared (1e-8), plus rest start, power = v*i, Kirchhoff\'s current law at every sample and settling to the exact DC gains on a long run, also for the same names '
+        're-analysed with other C / L on a compressed time axis; circuits outside the '
         'rational-pole class get the algebraic clauses only.',
    ref='DESIGN.md §6 C12, §7', technique='TLA+ spec (symbolic modal closed form) + TLC; spec->code replay',
    note='As TLC_BASE; additionally: exp() is evaluated by the harness (one call per pole); exact response only for circuits with distinct Gaussian-rational poles of order <= 2.'),
@@ -117,7 +124,7 @@ CLAIMED = {
         'symbol in insertion order between the classes of its start and end point, reversed sources swapped, ground = reference, labels name their class) and TLC checks that '
         'a quarter turn of the drawing leaves it unchanged up to renaming.  Programs (<= 8 placements on a 3x3 grid, every supported symbol with either reversal / degree '
         'flag, wires, labels, one ground) are generated by TLC -simulate, built with the real element classes (placement asserted) as drawn and under a random rigid motion, '
-        'rescaling, wire splitting, insertion order and naming; circuit_translator\'s components are compared with the netlist up to a node bijection respecting ground and '
+        'rescaling, wire splitting, insertion order and naming (and translated at random stages while being built); circuit_translator\'s components are compared with the netlist up to a node bijection respecting ground and '
         'labels, and the DC solution with the specification\'s exact solution.',
    ref='DESIGN.md §6 C13', technique='TLA+ spec + TLC simulation of drawing programs; spec->code replay'),
  'C15': dict(
